@@ -278,6 +278,9 @@ def check(ctx):
     rule_pipeline(ctx)
     rule_defaults(ctx)
     rule_env(ctx)
+    # the alignment step that operation() delegates to: reindex loop of align()
+    from . import c06
+    c06.rule_align(ctx)
     ctx.not_decided += ['per-coordinate numerical result', 'NaN placement for labels missing in one operand (C06/C07 clauses)']
     ctx.trusted += ['NumPy ufunc semantics', 'NumPy stub files list the public names of the pinned NumPy']
     return EXPLANATION
